@@ -1,5 +1,6 @@
 import MindsVerif.Lemmas.SelectSkel
 import MindsVerif.Lemmas.SelectCompose
+import MindsVerif.Lemmas.SetOps
 import MindsVerif.Props.C03
 import MindsVerif.Model.Lex
 import MindsVerif.Gen.Lex_sqlite
@@ -23,9 +24,9 @@ over 76 node classes; what is proved is layered:
   `ensure_select_keyword_order` in that order and rebuild exactly the same record; hence printing is
   stable (`C01_partial_select_stable`).  `C01_partial_select_good`: for ALL records satisfying the
   decidable invariant `Good` (which every parser-built record satisfies: `C01_select_good`).
-* **L3 set operations** `C01_partial_union`: every parenthesis-free chain `a OP b OP c …` round-trips;
-  `C01_witness_union`: a chain with a parenthesised right operand is accepted but does NOT
-  (the rules `select : ( select ) | ( union )` drop the grouping).
+* **L3 set operations** `C01_partial_union : C01_full parseQ printQ id`: every token list the `union` rules accept —
+  operands parenthesised or not on either side, nested to any depth — round-trips, parentheses flags included
+  (the rule `( union )` stores the flag since /repo bce2da8; `C01_regress_union` is the former witness).
 * **L1 atoms**: C04 package (`Props/C04.lean`); here the two atom printers repaired in /repo as regression
   obligations: `C01_regress_parameter`, `C01_regress_variable`.
 
@@ -102,24 +103,41 @@ theorem C01_partial_select_stable {E : Type} (c : Cfg E) (cte : Option E) (d : B
   rw [select_roundtrip c cte d ts cs s h] at h'
   cases h'; rfl
 
-/-! ## L3: set operations -/
+/-! ## L3: set operations (repaired in /repo bce2da8: `( union )` keeps `parentheses = True`) -/
 
-/-- every parenthesis-free chain accepted by the `union` rules round-trips -/
-theorem C01_partial_union (toks : List QTok) (q : Q) (hn : noGrp toks = true) (h : parseQ toks = some q) :
-    parseQ (printQ q) = some q := union_roundtrip_tokens toks q hn h
+/-- **C01 on set operations, for ALL accepted token lists**: operands parenthesised or not, on either side,
+nested to any depth, redundant parentheses — the printed tree is parsed back to the same tree (flags included) -/
+theorem C01_partial_union : C01_full parseQ printQ id := by
+  intro toks q h
+  have key := setop_roundtrip toks q h
+  refine ⟨key, ?_, key, rfl⟩
+  intro t' h'
+  rw [key] at h'
+  cases h'
+  rfl
 
-theorem C01_partial_union_left (q : Q) (h : leftNested q = true) : parseQ (printQ q) = some q :=
-  union_roundtrip q h
+/-- for ALL trees whose right operands are `select`s (plain or parenthesised) -/
+theorem C01_partial_union_wf (q : Q) (h : wfQ q = true) : parseQ (printQ q) = some q := setop_roundtrip_wf q h
 
-/-- `SELECT 0 EXCEPT (SELECT 1 EXCEPT SELECT 2)` is accepted, prints without the parentheses and
-re-parses as `(SELECT 0 EXCEPT SELECT 1) EXCEPT SELECT 2` -/
-def wUnionToks : List QTok := [.sel 0, .op .except true, .grp (.comb .except true (.sel 1) (.sel 2))]
-def wUnion : Q := .comb .except true (.sel 0) (.comb .except true (.sel 1) (.sel 2))
+/-- every tree the rules build has that shape -/
+theorem C01_union_wf (toks : List QTok) (q : Q) (h : parseQ toks = some q) : wfQ q = true := parse_wf toks q h
 
-theorem C01_witness_union :
-    parseQ wUnionToks = some wUnion ∧ parseQ (printQ wUnion) ≠ some wUnion ∧
-      parseQ (printQ wUnion) = some (.comb .except true (.comb .except true (.sel 0) (.sel 1)) (.sel 2)) := by
+/-- regression for the former known finding (KF-C01-40 / -24 / -27 / -31, `C01_witness_union` of earlier rounds):
+`SELECT 0 EXCEPT (SELECT 1 EXCEPT SELECT 2)` keeps its grouping through print and re-parse, and differs from the
+un-parenthesised chain -/
+def wUnionToks : List QTok := [.sel 0, .op .except true, .lp, .sel 1, .op .except true, .sel 2, .rp]
+def wUnion : Q := .comb .except true false (.sel 0) (.comb .except true true (.sel 1) (.sel 2))
+
+theorem C01_regress_union :
+    parseQ wUnionToks = some wUnion ∧ printQ wUnion = wUnionToks ∧ parseQ (printQ wUnion) = some wUnion ∧
+      parseQ [.sel 0, .op .except true, .sel 1, .op .except true, .sel 2] =
+        some (.comb .except true false (.comb .except true false (.sel 0) (.sel 1)) (.sel 2)) := by
   decide
+
+/-- redundant parentheses: `((SELECT 1 UNION SELECT 2))` and `(SELECT 1)` -/
+example : parseQ [.lp, .lp, .sel 1, .op .union true, .sel 2, .rp, .rp] = some (.comb .union true true (.sel 1) (.sel 2)) := by decide
+example : parseQ [.lp, .sel 1, .rp] = some (.sel 1) := by decide
+example : parseQ [.sel 1, .op .union false] = none := by decide
 
 /-! ## L2: expressions (re-exported from C03) -/
 
